@@ -14,6 +14,7 @@ mod m_rangeiter;
 mod m_split;
 mod m_parseint;
 mod m_cstr;
+mod m_ownership;
 
 use common::*;
 use rand::{rngs::SmallRng, SeedableRng};
@@ -33,6 +34,7 @@ fn replay_line(s: &mut Summary, v: &V) {
         "Split" => m_split::replay(s, v),
         "ParseInt" => m_parseint::replay(s, v),
         "CStr" => m_cstr::replay(s, v),
+        "Ownership" => m_ownership::replay(s, v),
         m => panic!("kh: unknown module {m}"),
     }
 }
